@@ -1,8 +1,10 @@
-(* C10 - What a handler's queries see always reflects the current world.  (partial)
+(* C10 - What a handler's queries see always reflects the current world.
    Proved: a refresh notification caches an archetype (with its current identity and buffer
-   epoch) exactly when the query's documented meaning holds of it.  That every structural
-   change sends the notifications that are needed is checked by the correspondence (views at
-   every invocation; a stale or missing entry is a checked failure of the model). *)
+   epoch) exactly when the query's documented meaning holds of it; and the cache invariant XI
+   (every cache of every live handler lists, once each, exactly the non-empty archetypes its query
+   matches, with their current identity and buffer epoch; refresh-listener sets are exact) holds in
+   every reachable world, for every handler behaviour - so every structural change sends the
+   notifications that are needed, and a view never contains a stale or missing archetype. *)
 From Coq Require Import List NArith Bool.
 Require Import EV.Base EV.Query EV.World EV.ArchProofs.
 
@@ -20,3 +22,47 @@ Theorem c10_partial_refresh_skips_nonmatching_archetype :
     qmatch (arch_has a) q = false -> param_refresh ai a (RFetch k q c) = RFetch k q c.
 Proof. exact param_refresh_skips_nonmatching. Qed.
 Print Assumptions c10_partial_refresh_skips_nonmatching_archetype.
+
+Require Import EV.SlotMap EV.Store EV.Effects EV.Member EV.Listen EV.Fetch.
+Open Scope N_scope.
+
+(* what a cache-backed view (Fetcher / Single / TrySingle) yields on a world satisfying the cache
+   invariant: no unchecked failure, and exactly the entities stored in the archetypes that the
+   query matches - each through the archetype's current columns *)
+Theorem c10_view_is_exactly_the_current_matching_entities :
+  forall (w : world) (hk : key) (h : hinfo) (p : rparam) (q : query) (c : list centry),
+    XI w -> hlive w hk h -> In p (h_params h) -> pquery p = Some (q, c) ->
+    exists its, cache_items w q true c = inr its /\
+      forall k, In k (map fst its) <-> exists ai a row vals, arch_at w ai = Some a /\ amatch a q = true /\ nget (a_rows a) row = Some (k, vals).
+Proof. exact handler_view_exact. Qed.
+Print Assumptions c10_view_is_exactly_the_current_matching_entities.
+
+(* a targeted receiver finds its target's current row whenever its query matches the target's archetype *)
+Theorem c10_receiver_item_is_the_targets_current_row :
+  forall (w : world) (q : query) (c : list centry) (loc : eloc) (a : arch) (k : key) (vals : list cval),
+    CI w q c -> arch_at w (fst loc) = Some a -> amatch a q = true -> nget (a_rows a) (snd loc) = Some (k, vals) ->
+    exists st, arch_state (arch_has a) q = Some st /\ recv_item w q c loc = inr (aitem (row_col a vals) k st).
+Proof. exact recv_item_ok. Qed.
+Print Assumptions c10_receiver_item_is_the_targets_current_row.
+
+(* the invariant: after every call, for every handler behaviour *)
+Theorem c10_cache_invariant_in_every_reachable_world :
+  forall (beh : hinfo -> logent -> N -> script) (fuel p : N) (ops : list top_all),
+    DI (fold_left (run_top_all beh) ops (world0 fuel p)).
+Proof. exact reachable_DI. Qed.
+Print Assumptions c10_cache_invariant_in_every_reachable_world.
+
+(* ... and after every single delivery inside a flush (structural changes made by earlier events of the
+   same flush are visible to the handlers of later ones) *)
+Theorem c10_cache_invariant_after_every_delivery :
+  forall (beh : hinfo -> logent -> N -> script) (it : qitem) (w : world),
+    WInv w -> Reach.GevKinds w -> HL w -> XI w -> XI (snd (fst (deliver_one beh it w))).
+Proof. exact deliver_one_XI. Qed.
+Print Assumptions c10_cache_invariant_after_every_delivery.
+
+(* each kind of structural change sends exactly the notifications that keep the invariant *)
+Theorem c10_archetype_move_keeps_caches_exact :
+  forall (w : world) (src : eloc) (dst : N) (nw : option (N * cval)) (w' : world),
+    move_entity w src dst nw = ROk tt w' -> XI w -> XI w'.
+Proof. exact move_entity_XI. Qed.
+Print Assumptions c10_archetype_move_keeps_caches_exact.
